@@ -1,7 +1,7 @@
 (* Cases for the codec payloaders and depacketizers (C08-C15). *)
 From Coq Require Import ZArith List Bool.
 From RTP Require Import Base.Res Base.ListX Base.Own Extract.Value Model.Vp8 Model.H264 Model.H265 Model.Vp9Header Model.Vp9 Model.Av1Pay Model.Av1Depack Model.Av1Legacy Model.Leb128 Model.Obu.
-From RTP Require Spec.Rfc6184 Spec.Rfc7798 Spec.Rfc7741.
+From RTP Require Spec.Rfc6184 Spec.Rfc7798 Spec.Rfc7741 Spec.Av1Rtp.
 Import ListNotations.
 Open Scope Z_scope.
 
@@ -61,6 +61,17 @@ Fixpoint h264_history (st : h264pay) (calls : list tok) : list value :=
     | None => [VBad]
     end
   | _ => [VBad]
+  end.
+
+(* the fragments a payloader emits over a history of calls (errors and panics emit nothing) *)
+Fixpoint h264_frags (st : h264pay) (calls : list (Z * list Z)) : list (list Z) :=
+  match calls with
+  | [] => []
+  | (mtu, p) :: t =>
+    match h264_payload st mtu (Some p) with
+    | Ok (st', fs) => map (resolve (fun _ => [])) fs ++ h264_frags st' t
+    | _ => h264_frags st t
+    end
   end.
 
 Fixpoint h264_unmarshal_seq (st : h264pkt) (ps : list tok) : list value :=
@@ -283,6 +294,13 @@ Definition dispatch_codecs (op : Z) (args : list tok) : value :=
     | Some f => VList (vp9_history (mkVp9Pay f 0 false) init calls)
     | None => VBad
     end
+  | 1204, [flex; TInt init; TList calls] =>
+    (* as 1201; every call also carries the description of its frame, which only the harness oracle reads *)
+    match t_bool flex with
+    | Some f => VList (vp9_history (mkVp9Pay f 0 false) init
+                         (map (fun c => match c with TList (m :: b :: _) => TList [m; b] | _ => c end) calls))
+    | None => VBad
+    end
   | 1202, [TList ps] => VList (vp9_unmarshal_seq vp9_fresh ps)
   | 1203, [TBytes b] => v_res v_vp9hdr (vp9_header_unmarshal b)
   | 1401, [donl; skip; TList calls] =>
@@ -331,9 +349,52 @@ Definition dispatch_codecs (op : Z) (args : list tok) : value :=
     | Some a => VList (h264_unmarshal_seq (mkH264Pkt a []) ps)
     | None => VBad
     end
+  | 1006, [disable; avc; TList calls] =>
+    (* calls given as unit lists with their start-code lengths: build the Annex-B streams, run the
+       payloader model over them, then the receiver model over the packets it emitted *)
+    let unit_bytes (u : tok) : option (list Z) :=
+      match u with
+      | TList [TInt sc; TBytes n] => Some ((if sc =? 3 then [0; 0; 1] else [0; 0; 0; 1]) ++ n)
+      | _ => None
+      end in
+    let call_of (c : tok) : option (Z * list Z) :=
+      match c with
+      | TList [TInt mtu; TList us] => option_map (fun bs => (mtu, concat bs)) (opt_map unit_bytes us)
+      | _ => None
+      end in
+    match t_bool disable, t_bool avc, opt_map call_of calls with
+    | Some d, Some a, Some cs =>
+      VList [VList (h264_history (mkH264Pay d None None) (map (fun c => TList [TInt (fst c); TBytes (snd c)]) cs));
+             VList (h264_unmarshal_seq (mkH264Pkt a []) (map TBytes (h264_frags (mkH264Pay d None None) cs)))]
+    | _, _, _ => VBad
+    end
   | 1005, [avc; TInt _; TList ps] =>
     match t_bool avc with
     | Some a => VList (h264_unmarshal_seq (mkH264Pkt a []) ps)
+    | None => VBad
+    end
+  | 1308, [TInt mtu; TList os] =>
+    (* the OBUs rendered by Spec/Av1Rtp.v (size field on each one that asks for it), the payloader
+       model, and both receiver models on its packets *)
+    let t_obu (t : tok) : option (bool * Av1Rtp.iobu) :=
+      match t with
+      | TList [TInt ty; ext; TInt tid; TInt sid; TInt r3; hs; TBytes pl] =>
+        match t_bool ext, t_bool hs with
+        | Some e, Some h => Some (h, Av1Rtp.mkIobu ty (if e then Some (tid, sid, r3) else None) false pl)
+        | _, _ => None
+        end
+      | _ => None
+      end in
+    match opt_map t_obu os with
+    | Some l =>
+      let input := concat (map (fun x => Av1Rtp.io_bytes (fst x) (snd x)) l) in
+      match av1_payload mtu input with
+      | Ok ps => VList [VBytes input; VTag 0 (VList (map VBytes ps));
+                        VList (av1d_seq (mkAv1Dep [] false false false) (map TBytes ps));
+                        VList (av1_legacy_seq None (map TBytes ps))]
+      | Err e => VTag 1 (VInt (err_obs e))
+      | Panic => VTag 2 VUnit
+      end
     | None => VBad
     end
   | 1307, [TInt _; TList ps] => VList (av1d_seq (mkAv1Dep [] false false false) ps)
